@@ -319,6 +319,11 @@ func runDial(t *testing.T, ksc KScenario, res *KResult) {
 				multi := (d != nil && d.PadCH > 0) || strings.HasPrefix(sc.Cfg.Client, "chrome146") // ClientHello needs several datagrams
 				feasible := d == nil || !multi || d.Builder == "random" || d.Builder == "multi" ||
 					((d.Builder == "" || d.Builder == "keep") && strings.HasPrefix(sc.Cfg.Client, "chrome"))
+				if feasible && cp.err != nil && strings.Contains(cp.err.Error(), "does not fit the packet buffer") {
+					// header (token, connection IDs) plus the builder's fixed Length exceed a packet: the spec cannot be laid out
+					// and is rightly rejected before anything is sent
+					feasible = false
+				}
 				if feasible {
 					report("C02", "dial with a built-in or derived spec rejected before anything was sent", "dial #%d: %v", di, cp.err)
 				} else {
